@@ -467,7 +467,7 @@ def s3_slice(ctx):
                     # bind whatever terms the code used for bounds[k], bounds[k+1]
                     loc = dict(pb)
                     for x in list(subterms(a)) + list(subterms(b)):
-                        if is_t(x) and x[1] == 'item' and is_t(x[2]) and x[2][1] == 'slice' and x[2][2] == bounds:
+                        if is_t(x) and x[1] == 'item' and is_t(x[2]) and x[2][1] == 'index' and x[2][2] == bounds and is_t(x[2][3]) and x[2][3][1] == 'slice3':
                             loc[x] = i0 if x[3] == C(0) else i1
                         if is_t(x) and x[1] == 'index' and x[2] == bounds and x[3] == k:
                             loc[x] = i0
@@ -558,7 +558,7 @@ def s4_list_int(ctx):
                 continue
             # sub = Sub(index(item, BitAnd(cmp(LtE, i0, item), cmp(Lt, item, i1))), i0)
             def is_i(x, which):
-                if is_t(x) and x[1] == 'item' and is_t(x[2]) and x[2][1] == 'slice' and x[2][2] == bounds and x[3] == C(which):
+                if is_t(x) and x[1] == 'item' and is_t(x[2]) and x[2][1] == 'index' and x[2][2] == bounds and is_t(x[2][3]) and x[2][3][1] == 'slice3' and x[3] == C(which):
                     return True
                 if which == 0 and x == T('index', bounds, k):
                     return True
